@@ -179,6 +179,14 @@ def handle (j : Json) : R Json := do
       | some (h, _) => jsVersionClass h.version
       | none => .other
     let clsName := match cls with | .v00 => "v00" | .v01 => "v01" | .v02 => "v02" | .other => "other"
+    if cls == .v00 then
+      match jsParseV00 b with
+      | some (h, e, fps, frames) =>
+        pure (Json.mkObj [("ok", Json.bool true), ("class", Json.str clsName), ("header", headerToJson h), ("headerLength", natJ e), ("fps", natJ fps),
+          ("frames", Json.arr (frames.toArray.map fun fr => Json.arr (fr.toArray.map fun pr => Json.mkObj [("id", natJ pr.id),
+            ("comps", Json.arr (pr.comps.toArray.map fun c => Json.arr (c.toArray.map fun pt => f32Arr pt)))])))])
+      | none => pure (Json.mkObj [("ok", Json.bool false), ("class", Json.str clsName)])
+    else
     match jsParse jsVersionClass b with
     | some (h, e, body) => pure (Json.mkObj [("ok", Json.bool true), ("class", Json.str clsName), ("header", headerToJson h), ("headerLength", natJ e),
         ("fps", fpsToJson body.fps), ("frames", natJ body.frames), ("people", natJ body.people), ("points", natJ body.points), ("dims", natJ body.dims),
